@@ -14,8 +14,11 @@ PROP_FILE = "Properties/C02.v"
 TRUSTED = [
     "translator/c02.py (guard lists of Readout.__init__, Readout.times / start_time setters, "
     "ReadoutProperties.__init__, incl. the form of the start guard and the numpy-array conversion; table of "
-    "Detector.empty(reset); policy of Detector.set_readout and the wiring of its call in run_pipeline; fails closed on "
-    "any other shape)",
+    "Detector.empty(reset); the empty() of every container as a program over the pieces of state the container holds "
+    "(Photon, Charge: _array and _frame, ArrayBase / Pixel / Signal / Image, Scene), the attributes each container's "
+    "__init__ creates, whether the Charge.array property stores the derived array, empty() overrides of the Detector "
+    "subclasses; policy of Detector.set_readout and the wiring of its call in run_pipeline; fails closed on any other "
+    "shape)",
     "correspondence harness: harness/props/c02.py generators, harness/drivers/c02.py, probes/verif_probes_c02.py "
     "(the observing probes read private _array / _frame attributes of the containers)",
     "modelled, not verified: float64 arithmetic on the generated dyadic times is exact (checked per case in the "
@@ -24,6 +27,18 @@ TRUSTED = [
 ]
 
 BUCKETS = ("scene", "photon", "charge", "pixel", "signal", "image")
+# the pieces of state observed per detector: Charge holds a 2-D array ("charge") AND a particle dataframe ("cframe")
+PIECES = ("scene", "photon", "charge", "cframe", "pixel", "signal", "image")
+# the public ways of filling each container (probes/verif_probes_c02.py: apply_write)
+HOWS = {
+    "scene": ("add_source",),
+    "photon": ("array", "array_2d", "array_3d", "iadd", "iadd_3d", "array_iadd", "add_op"),
+    "charge": ("array", "particles", "dataframe"),
+    "pixel": ("array", "update", "iadd", "array_iadd", "inplace", "add_op"),
+    "signal": ("array", "update", "iadd", "array_iadd", "inplace", "add_op"),
+    "image": ("array", "update", "iadd", "array_iadd", "inplace", "add_op"),
+}
+ADD_HOWS = ("iadd", "iadd_3d", "array_iadd", "inplace", "add_op")      # these add to what the container holds
 BNAME = dict(scene="Scene", photon="Photon", charge="Charge", pixel="Pixel", signal="Signal", image="Image")
 WGROUPS = ("photon_collection", "charge_generation", "charge_collection", "charge_measurement", "readout_electronics")
 HISTORIES = ("fresh", "junk", "other_mode", "failed", "failed_other")
@@ -112,6 +127,42 @@ def gen_times(r, n=None, start=None, incs=None):
     return ts, start
 
 
+DTYPES = {
+    "photon": (("float64", 80), ("float32", 15), ("float16", 5)),
+    "charge": (("float64", 85), ("float32", 15)),
+    "pixel": (("float64", 70), ("float32", 20), ("float16", 10)),
+    "signal": (("float64", 70), ("float32", 20), ("float16", 10)),
+    "image": (("uint16", 60), ("uint8", 10), ("uint32", 15), ("uint64", 15)),
+}
+
+
+def gen_dtype(r, b):
+    names, weights = zip(*DTYPES[b])
+    return r.choices(names, weights)[0]
+
+
+def gen_ops(r, b):
+    """The operations of one step on bucket b: [bucket, value, add, how, dtype]; a bucket may be filled more than once
+    in a step, charge through a mixture of its three ways in any order, photon either as a 2-D array or as a cube; the
+    arrays handed over are of any dtype the container accepts."""
+    if b == "scene":
+        return [[b, 1, True, "add_source"]]
+    dt = gen_dtype(r, b)
+    if b == "charge":
+        k = r.choices([1, 2, 3], [60, 30, 10])[0]
+        return [[b, r.randrange(1, 30), True, r.choices(HOWS[b], [60, 20, 20])[0], dt] for _ in range(k)]
+    if b == "photon":
+        hows = ("array_3d", "iadd_3d") if r.random() < 0.3 else ("array", "array_2d", "iadd", "array_iadd", "add_op")
+    else:
+        hows = HOWS[b]
+    ops = []
+    for j in range(r.choices([1, 2], [80, 20])[0]):
+        how = r.choice(hows)
+        add = how in ADD_HOWS or r.random() < ((0.8 if b == "pixel" else 0.4) if j == 0 else 0.7)
+        ops.append([b, r.randrange(1, 30), bool(add), how, dt])
+    return ops
+
+
 def gen_plan(r, n):
     plan = []
     style = r.choice(["dense", "sparse", "pixel_only", "all_each", "none", "first_only"])
@@ -123,12 +174,92 @@ def gen_plan(r, n):
         for b in BUCKETS:
             p = dict(dense=0.7, sparse=0.25, pixel_only=1.0 if b == "pixel" else 0.0, all_each=1.0, first_only=0.8)[style]
             if r.random() < p:
-                add = True if b in ("scene", "charge") else r.random() < (0.8 if b == "pixel" else 0.4)
-                v = 1 if b == "scene" else r.randrange(1, 30)
-                ops.append([b, v, add])
-        r.shuffle(ops)
-        plan.append(ops)
+                ops.append(gen_ops(r, b))
+        r.shuffle(ops)          # the order between buckets; the operations on one bucket keep their order
+        plan.append([op for grp in ops for op in grp])
     return plan
+
+
+def gen_fill_exhaustive():
+    """Thorough tier: for every container EVERY ordered pair of its public ways of filling it (charge: every ordered
+    pair and triple of its three ways; photon: pairs within the 2-D ways and within the cube ways) applied in step 0 of
+    a two-readout run, in both readout modes, on every detector type: step 1 must start empty."""
+    import itertools
+
+    out = []
+    k = 0
+    for b in BUCKETS:
+        if b == "scene":
+            seqs = [("add_source",), ("add_source", "add_source")]
+        elif b == "charge":
+            seqs = [q for n in (1, 2, 3) for q in itertools.product(HOWS[b], repeat=n)]
+        elif b == "photon":
+            d2 = ("array", "array_2d", "iadd", "array_iadd", "add_op")
+            d3 = ("array_3d", "iadd_3d")
+            seqs = [(h,) for h in HOWS[b]] + list(itertools.product(d2, repeat=2)) + list(itertools.product(d3, repeat=2))
+        else:
+            seqs = [(h,) for h in HOWS[b]] + list(itertools.product(HOWS[b], repeat=2))
+        for seq in seqs:
+            for nd in (False, True):
+                for det in DETECTORS:
+                    dt = [] if b == "scene" else [DTYPES[b][k % len(DTYPES[b])][0]]
+                    ops = [[b, 2 + j, True if (b in ("scene", "charge") or h in ADD_HOWS or j > 0) else False, h] + dt
+                           for j, h in enumerate(seq)]
+                    out.append(dict(form="list", times=[hx(1.0), hx(2.0)], start=hx(0.0), nd=nd, ops=[], history="fresh",
+                                    wgroup=WGROUPS[k % len(WGROUPS)], rows=1 + k % 2, cols=1 + k % 3, entry="run_mode",
+                                    detector=det, plan=[ops, []], fill=True))
+                    k += 1
+    return out
+
+
+def no_cube(c):
+    """The deprecated loop assembles its result from `photon.array` and cannot carry a 3-D photon cube (a limit of
+    that entry's result assembly, not of the bucket lifecycle): its plans use the 2-D forms."""
+    if c.get("entry") == "deprecated_loop":
+        c["plan"] = [[(w[:3] + [{"array_3d": "array", "iadd_3d": "iadd"}.get(w[3], w[3])] + w[4:] if len(w) > 3 else w)
+                      for w in step] for step in c.get("plan", [])]
+    return c
+
+
+def gen_fill_cases(r):
+    """Every container filled through EVERY public way of filling it before a step boundary (and judged empty at the
+    start of the next step), in both readout modes; charge additionally through mixtures of its three ways in both
+    orders and on all detector types."""
+    out = []
+
+    def case(plan_steps, nd, det, k):
+        c = gen_valid_case(r, dict(form="list", n=3, nops=0, nd=nd, history=("fresh", "junk")[k % 2],
+                                   entry=("run_mode", "run_mode", "run_exposure", "deprecated_loop")[k % 4]))
+        c["detector"] = det
+        c["plan"] = plan_steps
+        c["fill"] = True
+        if c["entry"] == "deprecated_loop" and any(w[3] in ("array_3d", "iadd_3d") for st in plan_steps for w in st):
+            c["entry"] = "run_exposure"
+        out.append(c)
+
+    k = 0
+    for b in BUCKETS:
+        for how in HOWS[b]:
+            for nd in (False, True):
+                v = 1 if b == "scene" else r.randrange(2, 30)
+                dt = [] if b == "scene" else [DTYPES[b][k % len(DTYPES[b])][0]]
+                first = [[b, v, True if (b in ("scene", "charge") or how in ADD_HOWS) else False, how] + dt]
+                if how in ADD_HOWS and b not in ("scene", "charge"):
+                    # on an initialised container, so that the in-place form is the one exercised
+                    base_how = "array_3d" if how == "iadd_3d" else "array"
+                    first = [[b, r.randrange(2, 30), False, base_how] + dt] + first
+                second = [[b, v + 1, first[-1][2], how] + dt] if r.random() < 0.5 else []
+                for det in (DETECTORS if b == "charge" else (DETECTORS[k % len(DETECTORS)],)):
+                    case([first, second, []], nd, det, k)
+                    k += 1
+    mixes = [("array", "particles"), ("particles", "array"), ("dataframe", "particles"), ("array", "dataframe"),
+             ("dataframe", "array"), ("particles", "dataframe", "array"), ("array", "particles", "array")]
+    for mix in mixes:
+        for nd in (False, True):
+            ops = [["charge", r.randrange(2, 30), True, h] for h in mix]
+            case([ops, [ops[0]], ops[::-1]], nd, DETECTORS[k % len(DETECTORS)], k)
+            k += 1
+    return out
 
 
 def numpy_values(expr):
@@ -187,6 +318,7 @@ def gen_valid_case(r, force=None):
             cur_start = ns
     fin_ts, fin_start, _ = intended_final(c)
     c["plan"] = gen_plan(r, len(fin_ts))
+    no_cube(c)
     if force.get("float"):
         if not all(sched_class(*x) is None for x in intended_all(c)):
             return gen_valid_case(r, force)
@@ -370,6 +502,7 @@ def gen_session(r, n_runs=None, keep=None, reuse=None, tamper_p=0.5, n=None, ent
                   detector=first.pop("detector"))
     if entry:
         first["entry"] = entry
+        no_cube(first)
     runs = [first]
     for j in range(1, n_runs):
         prev = dict(runs[-1], pre=runs[:-1])
@@ -401,7 +534,7 @@ def gen_session(r, n_runs=None, keep=None, reuse=None, tamper_p=0.5, n=None, ent
                      start=hx(nstart))
         c["tamper"] = gen_tamper(r, nts, nstart, nnd, tamper_p)
         c["plan"] = gen_plan(r, len(nts))
-        runs.append(c)
+        runs.append(no_cube(c))
     case = dict(runs[-1], pre=runs[:-1], **common)
     if not all(all_exact(dict(runs[j], pre=runs[:j])) and
                all(sched_class(*x) is None for x in intended_all(dict(runs[j], pre=runs[:j])))
@@ -525,9 +658,18 @@ def gen_observations(r, n_random: int):
     return out
 
 
+def load_corpus():
+    """Minimised past failures (harness/corpus/C02/*.json), run first."""
+    from pathlib import Path
+
+    d = Path(__file__).resolve().parent.parent / "corpus" / "C02"
+    return [json.loads(f.read_text()) for f in sorted(d.glob("*.json"))] if d.is_dir() else []
+
+
 def gen_cases(ctx: Ctx, n_valid: int, mal_reps: int, n_sessions: int = 0, n_observations: int = 0, n_float: int = 0):
     r = ctx.rng("cases")
-    cases = []
+    cases = load_corpus()
+    n_valid += len(cases)
     # every (history, mode) pair with a multi-step pixel-accumulating plan: the leak / flag mutations
     for h in HISTORIES:
         for nd in (False, True):
@@ -546,6 +688,9 @@ def gen_cases(ctx: Ctx, n_valid: int, mal_reps: int, n_sessions: int = 0, n_obse
         c = gen_valid_case(r, dict(form="list", nops=0, history="fresh"))
         c["ops"] = [[k, a]] if k == "replace_nd" else [[k, hx(fl(c["times"][0]) - 1.0)]]
         cases.append(c)
+    fill = gen_fill_cases(ctx.rng("fill"))
+    cases += fill
+    n_valid += len(fill) // 4      # the directed fill cases take the place of three quarters as many random ones
     while len(cases) < n_valid:
         cases.append(gen_valid_case(r))
     cases += gen_malformed_cases(r, mal_reps)
@@ -607,13 +752,15 @@ def coz(v) -> str:
 
 
 def cdet(d) -> str:
-    return "(mkdet " + " ".join(coz(d[b]) for b in BUCKETS) + ")"
+    return "(mkdet " + " ".join(coz(d.get(b)) for b in PIECES) + ")"
 
 
-def cwop(b, v, add) -> str:
+def cwop(b, v, add, how=None, dtype=None) -> str:
     if b == "scene":
         return "(WAdd Scene 1%Z)"
-    if b == "charge" or add:
+    if b == "charge" and how in ("particles", "dataframe"):
+        return f"(WPart {core.cz(int(v))})"
+    if b == "charge" or add or how in ADD_HOWS:
         return f"(WAdd {BNAME[b]} {core.cz(int(v))})"
     return f"(WSet {BNAME[b]} {core.cz(int(v))})"
 
@@ -737,11 +884,17 @@ def classify1(c, o):
             if got != e:
                 return "clock", dict(field=f), f"step {i}: {f} = {got!r}, expected {e!r} (times={fts}, start={fstart})"
         b = ob["begin"]
-        for bk in ("scene", "photon", "charge", "signal", "image"):
-            if b[bk] is not None:
+        for bk in ("scene", "photon", "charge", "cframe", "signal", "image"):
+            if b.get(bk) is not None:
                 kind = "leak_from_history" if (i == 0) else "not_emptied"
-                return "step_start_buckets", dict(bucket=bk, kind=kind, mode="nd" if nd else "destructive"), \
-                    f"step {i}: {bk} holds {b[bk]} at the start of the step (history={full.get('history')})"
+                bucket = "charge" if bk == "cframe" else bk
+                part = {"charge": " (2-D array)", "cframe": " (particle dataframe)"}.get(bk, "")
+                filled = [f"{w[3] if len(w) > 3 and w[3] else 'array'}({w[1]})" for w in
+                          (c.get("plan", [])[i - 1] if 0 < i <= len(c.get("plan", [])) else []) if w[0] == bucket]
+                return "step_start_buckets", dict(bucket=bucket, kind=kind, mode="nd" if nd else "destructive"), \
+                    f"step {i}: {bucket}{part} holds {b[bk]} at the start of the step" + \
+                    (f"; step {i - 1} filled it through {', '.join(filled)}" if filled else "") + \
+                    f" (non_destructive={nd}, history={full.get('history')})"
         exp_px = 0 if (i == 0 or not nd) else prev_end["pixel"]
         if b["pixel"] != exp_px:
             kind = "leak_from_history" if i == 0 else ("pixel_lost" if nd else "pixel_kept")
@@ -762,6 +915,117 @@ def to_violation(c, o) -> Violation:
                               "buckets empty at step start, pixel 0 (destructive / step 0) or previous end (non-destructive); "
                               "invalid schedule: exception before any model executes",
                      what=what, sig=dict(clause=clause, **extra))
+
+
+
+# ------------------------------------------------------------------------------------------ differential judgement
+# When model and implementation disagree about the content of a bucket at the END of a step although the step began
+# with the bucket observed empty, the question for this property is whether the container really was empty: the same
+# writes are made in the only step of a run on a fresh detector (the control); if they leave something else there, what
+# the step's models found depended on what happened before the step -- a piece of state that empty() did not reset.
+
+
+def control_of(c, i):
+    """The writes of step i of case c as the only step of a one-readout run on a fresh detector."""
+    e = eff(c)
+    entry = e.get("entry") if e.get("entry") in ENTRIES else "run_mode"
+    return dict(form="list", times=[hx(1.0)], start=hx(0.0), nd=final_nd(c), ops=[], history="fresh",
+                wgroup=e.get("wgroup", "charge_collection"), rows=c.get("rows", 2), cols=c.get("cols", 3), entry=entry,
+                detector=c.get("detector", "ccd"), plan=[e.get("plan", [])[i]])
+
+
+def emit_differential(items) -> str:
+    body = ";\n  ".join(f"({core.cbool(bool(nd))}, ({cdet(a)}, {cdet(b)}))" for nd, a, b in items)
+    return ("From Coq Require Import ZArith List.\nFrom PyxelV Require Import Model.Exposure.\nImport ListNotations.\n"
+            f"Definition pairs : list (bool * (det Z * det Z)) := [\n  {body}\n].\n"
+            "Eval vm_compute in history_dependent pairs.\n")
+
+
+def differential_eval(ctx: Ctx, cands, tag="dif"):
+    """cands: [(case, observation of the case, step index)].  Runs the control of each and asks Coq whether the end
+    of the step differs from the end of its control.  Returns [(case, obs, i, control case, control obs)] that do."""
+    cands = [(c, o, i) for c, o, i in cands if o.get("stage") is None and i < len(o.get("obs") or [])
+             and i < len(eff(c).get("plan", []))]
+    if not cands:
+        return []
+    controls = [control_of(c, i) for c, _, i in cands]
+    outs = core.run_driver(ctx, "c02", controls, workers=8)
+    items, kept = [], []
+    for (c, o, i), cc, co in zip(cands, controls, outs):
+        if "crash" in co or "driver_error" in co or co.get("stage") is not None or len(co.get("obs") or []) != 1:
+            continue
+        items.append((final_nd(c), o["obs"][i]["end"], co["obs"][0]["end"]))
+        kept.append((c, o, i, cc, co))
+    if not items:
+        return []
+    ok, evals, se = core.coq_eval(ctx, tag, emit_differential(items))
+    if not ok or len(evals) != 1:
+        ctx.log("differential case file did not evaluate:", core.tail(se, 8))
+        return []
+    return [kept[k] for k in core.parse_int_list(evals[0])]
+
+
+def run_plain(ctx: Ctx, cases):
+    payload = [{k: v for k, v in c.items() if k not in ("malformed", "path", "view", "judge_all", "sweep_value",
+                                                        "differential_step")} for c in cases]
+    return core.run_driver(ctx, "c02", payload, workers=8)
+
+
+def differential(ctx: Ctx, mism, budget=16):
+    """Mismatching runs -> violations `step_end_depends_on_earlier_steps` (with a two-step replay when possible)."""
+    cands = []
+    for c, o in mism:
+        if o.get("stage") is not None or str(c.get("entry", "")).startswith("observation") or c.get("float"):
+            continue
+        plan = eff(c).get("plan", [])
+        steps = [i for i in range(min(len(plan), len(o.get("obs") or []))) if plan[i]
+                 and (i > 0 or c.get("history", "fresh") != "fresh" or c.get("pre"))]
+        for i in steps[:3]:
+            cands.append((c, o, i))
+        if len(cands) >= budget:
+            break
+    found = differential_eval(ctx, cands[:budget])
+    ctx.count("differential_controls_run", len(cands[:budget]))
+    done = set()
+    for c, o, i, cc, co in found:
+        if len(done) >= 3:
+            break
+        # shrink: the previous step's writes and this step's writes alone, on a fresh detector
+        small = None
+        if i > 0:
+            plan = eff(c).get("plan", [])
+            got0, exp0 = o["obs"][i]["end"], co["obs"][0]["end"]
+            bks = {("charge" if k == "cframe" else k) for k in PIECES if got0.get(k) != exp0.get(k)}
+            only = [[w for w in st if w[0] in bks] for st in (plan[i - 1], plan[i])]
+            for pl in (only, [plan[i - 1], plan[i]]):
+                two = dict(control_of(c, i), times=[hx(1.0), hx(2.0)], plan=pl)
+                o2 = run_plain(ctx, [two])[0]
+                if "crash" not in o2 and "driver_error" not in o2 and differential_eval(ctx, [(two, o2, 1)], tag="dif2"):
+                    small = (two, o2, 1)
+                    break
+        if small:
+            # the control of the shrunk case (its own step-1 writes alone)
+            cc = control_of(small[0], 1)
+            co = run_plain(ctx, [cc])[0]
+        c1, o1, i1 = small or (c, o, i)
+        got, exp = o1["obs"][i1]["end"], co["obs"][0]["end"]
+        diff = sorted(k for k in PIECES if got.get(k) != exp.get(k) and not (k == "pixel" and final_nd(c1)))
+        key = ",".join(diff)
+        if key in done:
+            continue
+        done.add(key)
+        case = dict({k: v for k, v in c1.items() if k != "judge_all"}, differential_step=i1)
+        ctx.violations.append(Violation(
+            clause="step_end_depends_on_earlier_steps", case=case,
+            observed=dict(end_of_step=got, end_of_the_same_writes_alone_on_a_fresh_detector=exp),
+            expected="a container that is empty at the start of a step behaves as an empty one: the writes of the step "
+                     "leave in it what they leave in the only step of a run on a fresh detector",
+            what=f"step {i1}: the writes {eff(c1)['plan'][i1]} leave {', '.join(f'{k}={got.get(k)}' for k in diff)}; made alone in "
+                 f"a one-readout run on a fresh detector they leave {', '.join(f'{k}={exp.get(k)}' for k in diff)} -- the "
+                 f"container kept something of "
+                 + (f"step {i1 - 1} ({eff(c1)['plan'][i1 - 1]})" if i1 > 0 else f"the detector's history ({c1.get('history')})")
+                 + " that empty() did not reset (state outside the attributes the emptiness test looks at)",
+            sig=dict(clause="step_end_depends_on_earlier_steps", pieces=key)))
 
 
 # ------------------------------------------------------------------------------------------ legs
@@ -814,9 +1078,16 @@ def expand(c, o):
 
 def evaluate(ctx: Ctx, cases, tag="c", count=True):
     """Run implementation + Coq on the cases. Returns (mismatching, violating, pairs)."""
-    payload = [dict({k: v for k, v in c.items() if k not in ("malformed", "path", "view", "judge_all", "sweep_value")},
+    payload = [dict({k: v for k, v in c.items() if k not in ("malformed", "path", "view", "judge_all", "sweep_value", "differential_step")},
                     all_runs=bool(c.get("judge_all"))) for c in cases]
-    obs = core.run_driver(ctx, "c02", payload, workers=8)
+    # run_driver hands contiguous slices to its workers: interleave, so that the expensive kinds of cases (sessions,
+    # observations) are spread over all of them
+    W, n = 8, len(payload)
+    perm = [i for k in range(W) for i in range(k, n, W)]
+    res = core.run_driver(ctx, "c02", [payload[i] for i in perm], workers=W)
+    obs = [None] * n
+    for i, o in zip(perm, res):
+        obs[i] = o
     pairs = []
 
     def add_pair(c, o):
@@ -875,6 +1146,13 @@ def evaluate(ctx: Ctx, cases, tag="c", count=True):
                 ctx.dist("observation_sweep", f"{c['sweep']['key']},{c['sweep'].get('mode')},{c['sweep'].get('scheduler', '-')}")
             ctx.dist("detector", c.get("detector", "ccd"))
             ctx.dist("outcome", "ran" if o.get("stage") is None else f"rejected_stage_{o['stage']}")
+            if o.get("stage") is None:
+                nsteps = len(o.get("obs") or [])
+                for i, step in enumerate(eff(c).get("plan", [])[:nsteps]):
+                    for w in step:
+                        # a bucket filled in step i is judged at the start of step i + 1 when there is one
+                        ctx.dist("filled_through" + ("_before_a_step_boundary" if i + 1 < nsteps else "_in_the_last_step"),
+                                 f"{w[0]}.{(w[3] if len(w) > 3 and w[3] else 'legacy_write')}")
     return mism, viol, pairs
 
 
@@ -940,10 +1218,15 @@ def shrink(ctx: Ctx, c, o):
     base_forms = c["form"] if c["form"] in ("ndarray", "list2d") else "list"
     if clause in ("clock", "step_start_buckets", "once_per_time") and sched_class(fts, fstart) is None:
         px = [[["pixel", 3, True]] for _ in fts]
+        # only the operations on the bucket that is found non-empty, then each of them alone in the first step
+        bk = classify(c, o)[1].get("bucket")
+        only = [[w for w in st if w[0] == bk] for st in c.get("plan", [])] if bk else []
+        singles = [[[w]] + [[] for _ in fts[1:]] for st in only for w in st][:8]
         for n in (1, 2, 3, len(fts)):
             if n <= len(fts):
                 for hist in ("fresh", c.get("history", "fresh")):
-                    for plan in ([[] for _ in range(n)], px[:n], c.get("plan", [])[:n]):
+                    for plan in [[[] for _ in range(n)], px[:n], c.get("plan", [])[:n]] + \
+                            ([only[:n]] if bk else []) + [sg[:n] for sg in singles]:
                         cands.append(dict(form=base_forms, times=[hx(t) for t in fts[:n]], start=hx(fstart),
                                           nd=fnd, ops=[], plan=plan, history=hist, wgroup=c.get("wgroup"),
                                           rows=1, cols=1, **{k: c[k] for k in ("entry", "detector", "float") if c.get(k)}))
@@ -1014,8 +1297,11 @@ def run(ctx: Ctx):
         "increasing (the code, and the model, only test the FIRST time against zero)",
         "times are finite rationals or NaN; generated times are dyadic so that the implementation's float arithmetic "
         "is exact (checked with Fractions for every generated case)",
-        "the per-step models are arbitrary state transformers of the six buckets that may read the clock; they do not "
-        "modify the clock or call detector.empty()/set_readout() themselves",
+        "the per-step models are arbitrary state transformers of the six buckets (seven pieces of state: Charge holds a "
+        "2-D array and a particle dataframe) that may read the clock; they do not modify the clock or call "
+        "detector.empty()/set_readout() themselves",
+        "emptiness of a piece of state: scene without source, photon/signal/image `_array is None`, charge array all "
+        "zero, charge dataframe without rows, pixel array all zero (Pixel.empty stores zeros)",
     ]
     gen = {}
     try:
@@ -1037,6 +1323,9 @@ def run(ctx: Ctx):
         ex = gen_sessions_exhaustive()
         ctx.cov["exhaustive_two_run_sessions"] = len(ex)
         cases += ex
+        ex = gen_fill_exhaustive()
+        ctx.cov["exhaustive_ways_of_filling_a_container_before_a_step_boundary"] = len(ex)
+        cases += ex
     mism, viol, pairs = evaluate(ctx, cases)
     distinct = set()
     for c, o in pairs:
@@ -1057,6 +1346,8 @@ def run(ctx: Ctx):
                         first_clock=(o["obs"][0]["clock"] if o.get("obs") else None)))
     (ctx.build / "mismatches.json").write_text(json.dumps([dict(case=c, observed=o) for c, o in mism], indent=1))
     record(ctx, mism, viol)
+    if ctx.broken and mism and not new_violations(ctx):
+        differential(ctx, mism)
     if ctx.broken and not new_violations(ctx):
         search(ctx)
 
@@ -1072,10 +1363,15 @@ def search(ctx: Ctx):
                 cases.append(gen_valid_case(r, dict(history=h, nd=nd, form="list", n=n)))
     for _ in range(400):
         cases.append(gen_valid_case(r))
+    cases += gen_fill_cases(r)
+    if not ctx.quick:
+        cases += gen_fill_exhaustive()
     cases += gen_sessions(r, 150)
     mism, viol, pairs = evaluate(ctx, cases, tag="s")
     ctx.cov["search_cases"] = len(pairs)
     record(ctx, [], viol)
+    if mism and not new_violations(ctx):
+        differential(ctx, mism)
 
 
 def replay(ctx: Ctx, rp: dict) -> int:
@@ -1094,6 +1390,19 @@ def replay(ctx: Ctx, rp: dict) -> int:
     (gen / "Gen_C02.v").write_text(text)
     core.ensure_lib(ctx, targets=["theories/Model/Exposure.vo", "theories/Model/ExposureF.vo"])
     core.coqc(ctx, gen / "Gen_C02.v", [(gen, "PyxelGen")])
+    if case.get("differential_step") is not None:
+        i = int(case["differential_step"])
+        base = {k: v for k, v in case.items() if k != "differential_step"}
+        o = run_plain(ctx, [base])[0]
+        print("case:", json.dumps(case))
+        print("implementation now does:", json.dumps(o)[:1500])
+        if "crash" in o or "driver_error" in o or o.get("stage") is not None:
+            print("the run did not complete")
+            return 1
+        bad = bool(differential_eval(ctx, [(base, o, i)], tag="replay_dif"))
+        print("step", i, "vs. the same writes alone on a fresh detector (judged in Coq):",
+              "DIFFERENT -- VIOLATED" if bad else "same -- holds")
+        return 1 if bad else 0
     payload = {k: v for k, v in case.items() if k not in ("malformed", "path", "view", "sweep_value", "judge_all")}
     o = core.run_driver(ctx, "c02", [payload], workers=1)[0]
     print("case:", json.dumps(case))
@@ -1123,20 +1432,25 @@ META = dict(
         "form of `times` (list/tuple/scalar/expression/file/numpy array) and arbitrary SESSIONS of several runs on one "
         "detector object with arbitrary changes of the detector by the caller in between, over an executable model of "
         "Readout.__init__/setters/replace, ReadoutProperties.__init__, Detector.set_readout, calculate_steps, "
-        "run_pipeline's loop (storing the clock into / reading it from the ReadoutProperties object) and "
-        "Detector.empty(reset): one step per time in order; the clock tuple at step i; the telescoping sum of the steps "
+        "run_pipeline's loop (storing the clock into / reading it from the ReadoutProperties object), "
+        "Detector.empty(reset) and the empty() of every container as a program over the pieces of state it holds (Charge: "
+        "the 2-D array AND the particle dataframe): one step per time in order; the clock tuple at step i; the telescoping sum of the steps "
         "(exported for C17); bucket state at every step start; the object-level run refines the functional run; "
         "independence from the whole prior detector state; every run of every session equals the same run alone on a "
         "blank detector; EVERY invalid schedule (NaN included) is rejected before any model runs on every path and leaves "
         "the detector untouched; a caller who only installs valid schedules is never refused (numpy arrays and "
         "replace() included). The guard lists of the four validation sites (with the form of the start guard: negative "
         "`start >= t0` lets NaN through, positive `not start < t0` refuses it), whether the constructor converts numpy "
-        "arrays, the table of Detector.empty and the policy of Detector.set_readout (always a new ReadoutProperties "
-        "from its arguments) are regenerated from the source on every run and the theorems are re-checked against "
-        "them. That the Python behaves like the model is established by correspondence (testing): real exposures "
+        "arrays, the table of Detector.empty, the program of every container's empty() (proved to re-initialise every "
+        "piece of the container on EVERY state by running it on all 2^7 shapes of a state) and the policy of "
+        "Detector.set_readout (always a new ReadoutProperties from its arguments) are regenerated from the source on "
+        "every run and the theorems are re-checked against them. That the Python behaves like the model is established by correspondence (testing): real exposures "
         "(pyxel.run_mode, Exposure.run_exposure, the deprecated loop; CCD/CMOS/MKID/APD), single runs and sessions of 2-4 "
-        "runs on one detector object, with observing probes first/last in every step, are compared with the "
-        "object-level model started from the observed detector state, and judged against the specification, inside Coq."),
+        "runs on one detector object, with observing probes first/last in every step and a writer that fills every "
+        "container through every public way of filling it (charge as array / particles / dataframe and mixtures, photon "
+        "2-D / cube / +=, pixel-signal-image setter / update() / in-place forms, all accepted dtypes), are compared with "
+        "the object-level model started from the observed detector state, and judged against the specification, inside "
+        "Coq."),
     level_note=(
         "Trusted: Coq kernel + vm_compute; translator/c02.py; the correspondence harness and probes; exactness of float "
         "arithmetic on the generated dyadic times (checked per case); numpy expression / file readers return what the "
